@@ -78,6 +78,7 @@ func (c17) Thresholds(tier string) map[string]int64 {
 		"name:keyword-prefixed":            4000,
 		"name:multi-byte":                  1000,
 		"unregistered-name-is-error":       500,
+		"unregistered-name-is-error-again": 1000,
 		"stop-not-dispatched":              500,
 		"zero-arguments":                   500,
 		"k3-commands":                      500,
@@ -349,6 +350,20 @@ func (p c17) Run(c *core.Ctx) {
 		if diff != "" {
 			c.Violate("a command under an unregistered name did not produce an error: "+diff, upair.Detail(nil, want, got, diff))
 			return
+		}
+		// ... and every time: the host goes back to the beginning of the node (RestoreAt of the initial snapshot says
+		// where the dialogue resumes, which an error does not) and the same statement runs again, 2-4 times
+		for again := r.Range(2, 4); again > 0; again-- {
+			if err := upair.R.RestoreAt(upair.R.DR.Snapshot()); err != nil {
+				c.Violate("restoring a runner from its own snapshot failed: "+err.Error(), map[string]any{"readers": us})
+				return
+			}
+			if o := upair.R.Next(0); o.Kind != mon.KErr {
+				c.Violate("a command under an unregistered name produced an error the first time it ran but not when the same statement ran again after a restore", map[string]any{
+					"readers": us, "observed": o.String(), "trace": upair.Trace})
+				return
+			}
+			c.Feature("unregistered-name-is-error-again")
 		}
 		c.Feature("unregistered-name-is-error")
 	}
